@@ -24,7 +24,8 @@ TOL = c07.TOL
 
 def call_period(c):
     """number of distinct point sets / batches a training condition cycles through (1 = call-invariant)"""
-    if c["kind"] in ("pinn", "mean", "ritz", "single", "hpm_sampler", "integro", "periodic") and not c.get("lib_sampler"):
+    if c["kind"] in ("pinn", "pinn2", "mean", "ritz", "single", "hpm_sampler", "integro", "periodic") and not c.get("lib_sampler") \
+            and not c.get("lib_product"):
         sets = c.get("np_sets") if c["kind"] == "periodic" else c["sets"]
         if not sets:
             return 1
@@ -50,7 +51,9 @@ def same_state(a, b):
 
 
 def ws_target(B, case):
-    return B.solver if case["ws_target"] == "solver" else B.models[0]
+    if case["ws_target"] == "solver":
+        return B.solver
+    return B.models[0] if case["ws_target"] == "model0" else B.models[-1]
 
 
 def run_full(case, tmp):
@@ -107,7 +110,7 @@ def gen_cases(ctx):
         case["ws_interval"] = rng.choice([-1, 1, 1, 2, 3])
         case["ws_init"] = rng.random() < 0.8
         case["ws_final"] = rng.random() < 0.8
-        case["ws_target"] = rng.choice(["solver", "model0"])
+        case["ws_target"] = rng.choice(["solver", "model0", "model_last"])
         case["N"] = max(case["N"], 2)
         case["default_args"] = rng.random() < 0.5        # library default optimizer_args={} where the optimizer allows
         case["interleave"] = rng.random() < 0.3          # an unrelated fit in the same process before the resumes
@@ -163,6 +166,11 @@ def run(ctx, rep, cases=None):
             N = case["N"]
             rep.count("channel:" + case["channel"]); rep.count("opt:" + case["opt"]["kind"])
             rep.count(f"ck_interval={case['ck_interval']}"); rep.count(f"ws_interval={case['ws_interval']}")
+            rep.count("ws_target:" + case["ws_target"])
+            for c in case["train"]:
+                if c.get("model") is not None and case["models"][c["model"]]["kind"] in ("poly2", "fcn2"):
+                    declared = case["models"][c["model"]].get("order", "xt")
+                    rep.count("two-variable-model:" + ("points-reordered" if declared != c.get("order", "xt") else "declared-order"))
             if "error" in rec:
                 rep.case(dict(case=case), False)
                 rep.fail(f"trainer.fit with TrainerStateCheckpoint/WeightSaveCallback raised {rec['error']}", case)
